@@ -429,3 +429,9 @@ def run(ctx):
         ("hour|self._byhour", "minute|self._byminute", "second|self._bysecond") for c in md_calls)
     ctx.ob("C01.UNIT", it, "same-level BY searches pair each field with its own BY set and base (hour/24, minute/60, second/60)", okm, construct="__mod_distance calls",
            analysis="FIELD same-field")
+
+    # ---------------------------------------------------------------- C01.ARGS
+    from ..rules_common import check_call_arguments
+    check_call_arguments(ctx, "C01.ARGS", "C01")
+
+
